@@ -174,7 +174,17 @@ def _t1(ctx: Context) -> None:
         ctr_t = nonce[2][1] if _is_pack(nonce, "<LQ") and len(nonce[2]) == 2 else None
         direct = ctr_t is not None and ctr_t[0] == "attr" and ctr_t[1] == ("param", "self")
         local_ctr = ctr_t is not None and not direct and contains(ctr_t, lambda s_: isinstance(s_, tuple) and s_[:2] == ("attr", ("param", "self")))
+        mm = None
         if local_ctr:
+            from ._counter import advance_mismatch
+
+            mm = advance_mismatch(ctx, f, cfg, T, "c2a_counter")
+        if mm is not None:
+            ck.violated("C05.T1", f"{ctx.fkey(f)}:reserved-nonces-differ-from-frames",
+                        f"send_bytes advances the send counter once per request by `{mm[0].text()[:70]}`: for a request of {mm[1]} bytes that is {mm[2]}, but the request is cut "
+                        f"into {mm[3]} frame(s) - the counter and the accessory's frame count diverge (the next request reuses a nonce or cannot be opened)", ctx.loc(f, mm[0]), None,
+                        "the counter advances by the number of frames sent")
+        elif local_ctr:
             # the counter threaded through a local and written back (see C06.G1): consecutive values are a fact about values
             # along the loop that is not computed here
             ck.unknown("C05.T1", f"send_bytes packs the nonce from a local computed from the send counter ({show(ctr_t, 60)}): the counter is threaded through a local - not decided", ctx.loc(f, en))
